@@ -10,4 +10,7 @@ open Strengths.Gen.PyNumeric
 limited number of digits (the model computes its values exactly and its texts through `repr`) -/
 theorem rdoutput_full_precision : fullPrecision inv_rdoutput = true := by decide +kernel
 
+/-- `rdoutput.py` takes no maximum / minimum / absolute value and swallows no exception: nothing it computes is clamped -/
+theorem rdoutput_no_clamping : clamp_rdoutput = [] := by decide +kernel
+
 end Strengths.PyNumeric
